@@ -374,8 +374,13 @@ func statusSummary(m map[string]int) string {
 // encoder writes): the same defect then shows under every property it breaks. When nothing is
 // violated one "holds" obligation records how many obligations were relied upon.
 func importObligations(c *Ctx, e *Env, run func(*Ctx, *Env), fromProp, newRule, construct, what string, keep func(o *Oblig) bool) {
+	if e.importDepth > 0 {
+		return // imports do not nest: the imported check is run for its own rules only
+	}
+	e.importDepth++
 	tmp := NewCtx(fromProp, c.Tier)
 	run(tmp, e)
+	e.importDepth--
 	n, bad := 0, 0
 	for i := range tmp.Obligs {
 		o := &tmp.Obligs[i]
